@@ -88,6 +88,11 @@ pub fn driver_prelude() -> Driver {
         "3 J / (2 s)",
         "let r = ans",
         "value_of(ans)",
+        // two definitionally equal derived units (named against their definition order) and a result
+        // that the end-of-input simplification may express in either
+        "unit zed2 = kilogram * metre",
+        "unit alp2 = kilogram * metre",
+        "2 kg * 3 m",
     ];
     let probes = ["a", "f(1 m)", "ans", "xs", "gg(1 m)", "2 smoot2 -> m", "quadratic_equation(1, 0, -4)", "r"];
     Driver {
@@ -134,8 +139,17 @@ fn check_history(d: &Driver, hist: &[u8], inc_ctx: &Context, inc_results: &[RunR
     agg.outcomes.push(hash64(&o_full));
     let hist_text: Vec<String> = lines.iter().map(|s| s.to_string()).collect();
     let mut viol = |kind: &str, what: String, agg: &mut Agg| {
+        // recorded class: the result of a multi-line input is simplified when the whole input has
+        // run, so a unit defined by a *later* line of the same input can appear in it
+        let expr_pos = hist_text.iter().position(|l| l == "2 kg * 3 m");
+        let later_unit = expr_pos.map(|p| hist_text[p + 1..].iter().any(|l| l.starts_with("unit zed2") || l.starts_with("unit alp2"))).unwrap_or(false);
+        let key = if (kind == "batch" || kind == "save") && later_unit && (what.contains("zed2^1") || what.contains("alp2^1")) {
+            "class:batch-result-simplified-with-later-unit".to_string()
+        } else {
+            format!("history:{}:{}|{}", d.name, hist_text.join("⏎"), kind)
+        };
         agg.violations.push((
-            format!("history:{}:{}|{}", d.name, hist_text.join("⏎"), kind),
+            key,
             format!("[{}] history {:?}: {}", d.name, hist_text, what),
             json!({"driver": d.name, "history": hist, "history_text": hist_text, "kind": kind}),
         ));
@@ -489,7 +503,7 @@ pub fn check(rep: &mut Report) {
     match rep.tier {
         Tier::Quick => {
             explore(rep, &t, 3);
-            explore(rep, &p, 2);
+            explore(rep, &p, 3);
         }
         Tier::Thorough => {
             explore(rep, &t, 4);
